@@ -209,6 +209,12 @@ do_gate(const cmd *c)
                         xts_same = 1;
         if (xts_same)
                 memcpy(rawkey2, rawkey, 32);
+        /* 'p' / 'q': distinct keys that share all but the last / first byte (valid calls: must be accepted) */
+        for (int i = 0; i < na; i++)
+                if (c->t[i + 2][0] == 'p' || c->t[i + 2][0] == 'q') {
+                        memcpy(rawkey2, rawkey, 32);
+                        rawkey2[c->t[i + 2][0] == 'p' ? (size_t) e->bits / 8 - 1 : 0] ^= 0x40;
+                }
         for (int i = 0; i < na; i++) {
                 char L = e->sig[i];
                 struct argobj *a = &A[i];
